@@ -65,5 +65,9 @@ def get_tracing_state() -> TracingState:
 def set_tracing_state(state: TracingState) -> Iterator[None]:
     """Context manager to update tracing state for the duration of a code block."""
     token = _STATE.set(state)
-    yield
-    _STATE.reset(token)
+    try:
+        yield
+    finally:
+        # Also restore the previous state if tracing fails. Otherwise a failed comptime
+        # function leaves tracing mode switched on for the rest of the session.
+        _STATE.reset(token)
